@@ -458,9 +458,9 @@ TIERS = {
 }
 
 PROPS = {
-    "C01": dict(fams=["core"], monitor=["C01"], level="model_checking"),
+    "C01": dict(fams=["core"], monitor=["C01"], scale=True, level="model_checking"),
     "C02": dict(fams=["core", "weak"], monitor=["C02"], level="model_checking"),
-    "C03": dict(fams=["core"], monitor=["C03"], level="model_checking"),
+    "C03": dict(fams=["core"], monitor=["C03"], scale=True, level="model_checking"),
     "C04": dict(fams=["weak", "consume"], monitor=["C04"], level="model_checking"),
     "C05": dict(fams=["weak", "dtor05", "consume"], monitor=["C05"], level="model_checking"),
     "C06": dict(fams=["core", "stale"], monitor=["C06"], level="model_checking"),
@@ -732,7 +732,7 @@ def run_check(prop, tier, seed, replay):
     # 6c. scale runs (C15): large groups on a small fixed stack, judged by TLC (ScaleCheck.tla)
     scale_info = None
     if P.get("scale") and not replay:
-        scale_info = run_scale(binp, wd, tier)
+        scale_info = run_scale(binp, wd, tier, prop)
         for b in scale_info["bad"]:
             rp = os.path.join(REPLAYS, "%s_scale_%s_%d.json" % (prop, b["shape"], b["n"]))
             with open(rp, "w") as f:
@@ -832,13 +832,14 @@ def run_check(prop, tier, seed, replay):
 
 
 SCALE_SHAPES = {
-    "quick": ["ring:1000", "ring:100000", "ring:300000", "chords:100000", "wheel:5000", "wheel:60000", "clique:300"],
+    "quick": ["ring:1000", "ring:100000", "ring:300000", "chords:100000", "wheel:5000", "wheel:60000", "clique:300",
+              "ring+held:50000", "chords+held:50000", "wheel+held:20000", "clique+held:200"],
     "thorough": ["ring:1000", "ring:300000", "ring:1000000", "chords:500000", "wheel:5000", "wheel:60000", "wheel:200000",
-                 "clique:300", "clique:1000"],
+                 "clique:300", "clique:1000", "ring+held:300000", "chords+held:300000", "wheel+held:100000", "clique+held:700"],
 }
 
 
-def run_scale(binp, wd, tier):
+def run_scale(binp, wd, tier, prop="C15"):
     """Builds large adopted groups with the real library on a 128 KiB stack; TLC evaluates the
     bounds of ScaleCheck.tla on the logged counters. A run that kills the process (stack
     overflow) is data: it is recorded as a scale_died line."""
@@ -867,7 +868,7 @@ def run_scale(binp, wd, tier):
     with open(outp, "w") as f:
         for g in lines:
             f.write(json.dumps(g) + "\n")
-    env = {"TRACE": outp, "JAVA_TOOL_OPTIONS": JAVA_OPTS}
+    env = {"TRACE": outp, "SCALEPROP": prop, "JAVA_TOOL_OPTIONS": JAVA_OPTS}
     rc, out, dt = sh(["tlc", "-workers", "1", "-metadir", os.path.join(wd, "scale_meta"), "-cleanup", "-noGenerateSpecTE",
                       "-config", "ScaleCheck.cfg", "ScaleCheck.tla"], 600, cwd=SPEC, env=env)
     m = re.search(r'^<<"SCALE-BAD", "(.*)">>$', out, re.M)
